@@ -44,13 +44,25 @@ def run(cmd, cwd=None, timeout=3600, env=None):
 # ------------------------------------------------------------------ Lean side
 
 def gen_tables():
+    """both translators: the tables (gen_tables.py) and the functions translated statement by
+    statement (gen_code.py); returns the tables' report with the functions' `missing` merged in"""
     rc, out = run([sys.executable, os.path.join(VERIF, 'tools', 'gen_tables.py')])
     if rc != 0:
         raise Infra('translator failed: ' + out[-2000:])
     try:
-        return json.loads(out.strip().splitlines()[-1])
+        tab = json.loads(out.strip().splitlines()[-1])
     except Exception:
         raise Infra('translator output unreadable: ' + out[-500:])
+    rc, out = run([sys.executable, os.path.join(VERIF, 'tools', 'gen_code.py')])
+    if rc != 0:
+        raise Infra('code translator failed: ' + out[-2000:])
+    try:
+        code = json.loads(out.strip().splitlines()[-1])
+    except Exception:
+        raise Infra('code translator output unreadable: ' + out[-500:])
+    tab['missing'] = list(tab.get('missing', [])) + list(code.get('missing', []))
+    tab['code_sha'] = code.get('sha')
+    return tab
 
 
 def strip_comments(text):
@@ -319,6 +331,7 @@ def _prove(rep, pid, theorems, extra_targets=()):
     rep.proof['theorems'] = list(theorems)
     rep.proof['build_s'] = round(secs, 1)
     rep.proof['tables_sha'] = tab.get('sha')
+    rep.proof['code_sha'] = tab.get('code_sha')
     if not ok:
         names = []
         for f in failing:
